@@ -103,7 +103,7 @@ func c06Entries() []c06Entry {
 			io.ReadAll(d.Buffered())
 		}
 	}
-	paths := []string{"$", "$.a", "$.a.b", "$[0]", "$[*]", "$..a", "$.*", "$.a[1].b", "$['a']", `$["a b"]`, "$..*", "$.d.x", "$.e.e.e"}
+	paths := []string{"$", "$.a", "$.a.b", "$[0]", "$[*]", "$..a", "$.*", "$.a[1].b", "$['a']", `$["a b"]`, "$..*", "$.d.x", "$.e.e.e", "$[-1]", "$.a[-2]", "$.c[-0]", "$[99999999]", "$..a[-1]"}
 	var compiled []*gojson.Path
 	for _, p := range paths {
 		if cp, err := gojson.CreatePath(p); err == nil {
